@@ -651,3 +651,54 @@ func VerifC07SharedBranch() {
 	vassert(rerr != nil, "a value that is not a string is rejected before the string-typed condition")
 	vassert(!strings.Contains(rerr.Error(), "panic") && !strings.Contains(rerr.Error(), "unexpected input type"), "by the run-time check, with an ordinary error")
 }
+
+// a concretely typed node fed through an input key from a map[string]any: the value under the key is only known at
+// run time; a value of another type is reported as an ordinary error, in Invoke and in Stream
+func VerifC07InputKey() {
+	ctx := context.Background()
+	vcfg("fifo", 1)
+	vcfg("selectfirst", 1)
+	dyn := vchoose("dyn", 4) // value under the key: 0 string, 1 int, 2 nil, 3 key missing
+	pass := vchoose("passthrough", 2) == 1
+	var seen any
+	g := NewGraph[map[string]any, string]()
+	if pass {
+		_ = g.AddPassthroughNode("p", WithInputKey("k"))
+		_ = g.AddLambdaNode("b", InvokableLambda(func(ctx context.Context, in string) (string, error) { seen = in; return in, nil }))
+		_ = g.AddEdge(START, "p")
+		_ = g.AddEdge("p", "b")
+	} else {
+		_ = g.AddLambdaNode("b", InvokableLambda(func(ctx context.Context, in string) (string, error) { seen = in; return in, nil }), WithInputKey("k"))
+		_ = g.AddEdge(START, "b")
+	}
+	_ = g.AddEdge("b", END)
+	r, err := g.Compile(ctx)
+	vassert(err == nil, "graph with an input-keyed node compiles")
+	in := map[string]any{"other": 1}
+	switch dyn {
+	case 0:
+		in["k"] = "s"
+	case 1:
+		in["k"] = 7
+	case 2:
+		in["k"] = nil
+	}
+	var out string
+	var rerr error
+	if vchoose("stream", 2) == 1 {
+		sr, e := r.Stream(ctx, in)
+		rerr = e
+		if e == nil {
+			out, rerr = sr.Recv()
+			sr.Close()
+		}
+	} else {
+		out, rerr = r.Invoke(ctx, in)
+	}
+	if dyn == 0 {
+		vassert(rerr == nil && out == "s", "a value of the node's type under the key is delivered")
+		return
+	}
+	vassert(rerr != nil && seen == nil, "a value of another type (or none) under the key never reaches the node")
+	vassert(!strings.Contains(rerr.Error(), "panic"), "and is reported as an ordinary error, not a recovered panic")
+}
